@@ -108,6 +108,15 @@ func (lifeComp) Exec(op string) (string, string, string, bool) {
 		res, mon := badPeers(carrier, n, ending)
 		return res, mon, carrier + " badpeer " + ending, strings.HasPrefix(res, "grow=")
 	}
+	if closer == "blockS" || closer == "blockC" {
+		var res, mon string
+		if closer == "blockS" {
+			res, mon = blockedServer(carrier, n, ending)
+		} else {
+			res, mon = blockedClient(carrier, n, ending)
+		}
+		return res, mon, carrier + " " + closer + " " + ending, strings.HasPrefix(res, "grow=")
+	}
 	tmode := "echo"
 	if closer == "target" {
 		tmode = "source:100:1"
@@ -261,7 +270,30 @@ func (lifeComp) Gen(r *Rand, tier string, emit func(string)) {
 	emit("tcptls 10 app cut")
 	emit("tcp 10 app garbage")
 	emit("ws 10 app cut")
+	// a session that ends while one of its directions is blocked (peer not reading, peer keeps its end open)
+	emit("ws 1 blockS garbage")
+	emit("tcp 1 blockS garbage")
+	emit("stdio 1 blockS garbage")
+	emit("ws 1 blockC sessclose")
+	emit("tcp 1 blockC clishutdown")
 	if tier == "thorough" {
+		for _, c := range []string{"tcptls", "wss", "starttls", "stdiotls"} {
+			emit(c + " 1 blockS garbage")
+		}
+		for _, c := range []string{"tcp", "ws", "tcptls", "wss", "stdio"} {
+			emit(c + " 1 blockS cut")
+		}
+		emit("ws 3 blockS garbage")
+		emit("tcp 2 blockS cut")
+		for _, c := range []string{"tcp", "tcptls", "wss", "starttls"} {
+			emit(c + " 1 blockC sessclose")
+		}
+		for _, c := range []string{"ws", "tcptls", "wss"} {
+			emit(c + " 1 blockC clishutdown")
+		}
+		emit("ws 1 blockS timeout")
+		emit("tcp 1 blockC timeout")
+		emit("tcp 1 blockS cutwait")
 		for _, c := range []string{"tcptls", "starttls", "stdio", "udp"} {
 			emit(c + " 50 app none")
 			emit(c + " 50 target none")
